@@ -122,8 +122,6 @@ HREFS_MORE = [
     "./",
     "ftp://a.com/f",
     "tel:123",
-    "http://xn--ki8h.ws/x",  # D41: canonicalizes to an astral host
-    "http://a.com:08/",  # canonicalizes to a one-digit port
     "http://a.com:8080/p",
     "http://localhost:8000/",
     "http://1.2.3.4/",
@@ -145,6 +143,15 @@ HREFS_MORE = [
     ":",
     "http://",
     "http://a.co.uk./",
+]
+# hrefs of the two known findings (canonicalize=True yields a link is_url refuses); kept out of
+# the exhaustive pair enumeration so that they do not drown the stream: corpus, 1-piece
+# documents and ~2% of the random documents
+HREFS_KF = [
+    "http://xn--ki8h.ws/x",  # D41: canonicalizes to an astral host
+    "http://a.com:08/",  # canonicalizes to a one-digit port
+    "http://xn--ls8h.la:8080/a/../b",
+    "https://b.org:007/x#f",
 ]
 # only inside quotes
 HREFS_QUOTED_ONLY = [
@@ -424,7 +431,10 @@ def cases(rng, tier):
     nb = len(BASES)
     # exhaustive small scope
     i = 0
-    for p in full:
+    kf_anchors = []
+    for h in HREFS_KF:
+        kf_anchors += anchors_for(h, False)
+    for p in full + kf_anchors:
         if tier == "thorough":
             for b in BASES:
                 yield mk([p], b)
@@ -446,7 +456,7 @@ def cases(rng, tier):
                 yield mk([p1, p2], BASES[i % nb])
                 i += 1
     # seeded random documents of 1..6 pieces
-    n = 1500 if tier == "quick" else 30000
+    n = 6000 if tier == "quick" else 40000
     anchors = [p for p in full if p["k"] == "a"]
     others = [p for p in full if p["k"] != "a"]
     wf_others = [p for p in others if p["k"] != "r"]
@@ -456,7 +466,7 @@ def cases(rng, tier):
         doc = []
         for _ in range(m):
             if rng.random() < 0.6:
-                p = dict(rng.choice(anchors))
+                p = dict(rng.choice(kf_anchors if rng.random() < 0.008 else anchors))
                 if rng.random() < 0.3:
                     p["upper"] = not p["upper"]
                 if rng.random() < 0.3:
@@ -672,6 +682,17 @@ def _host(url):
 
 
 def oracle(case):
+    """first failure that is NOT one of the known-finding classes if there is one (so that a
+    known finding never masks something else in the same case), else the first failure"""
+    fails = _oracle_all(case)
+    for f in fails:
+        if not (kf_astral_idn(case, f) or kf_one_digit_port(case, f)):
+            return f
+    return fails[0] if fails else None
+
+
+def _oracle_all(case):
+    fails = []
     m = _m()
     doc, base = case["doc"], case["base"]
     is_url, canon, follow = m["is_url"], m["canon"], m["sfh"].should_follow_href
@@ -679,15 +700,16 @@ def oracle(case):
     a = _urls(doc)
     b = _urls(doc.encode("utf-8"))
     if a != b:
-        return "str-vs-bytes: urls_from_html(doc)=%r but urls_from_html(doc.encode())=%r" % (a, b)
+        fails.append("str-vs-bytes: urls_from_html(doc)=%r but urls_from_html(doc.encode())=%r" % (a, b))
     if not isinstance(a, list):
-        return "urls_from_html raises %r" % (a,)
+        fails.append("urls_from_html raises %r" % (a,))
+        return fails
     # 2. one URL per anchor with an href outside script blocks, in document order
     pieces = case.get("pieces")
     if pieces is not None and render(pieces) == doc and wf(pieces):
         want = expected_urls(pieces)
         if a != want:
-            return "well-formed document: urls_from_html=%r, anchors outside scripts give %r" % (a, want)
+            fails.append("well-formed document: urls_from_html=%r, anchors outside scripts give %r" % (a, want))
     # 3. post-conditions of links_from_html
     for combo in COMBOS:
         c, u, s = combo
@@ -698,7 +720,7 @@ def oracle(case):
             if ref is None:
                 ref = r
             elif r != ref:
-                return "str-vs-bytes: %s = %r, with str %r" % (tag_, r, ref)
+                fails.append("str-vs-bytes: %s = %r, with str %r" % (tag_, r, ref))
             links = r["links"]
             try:
                 eff_base = canon(base, strip_fragment=s) if c else base
@@ -721,23 +743,23 @@ def oracle(case):
                 cands = cc
             for l in links:
                 if l == eff_base:
-                    return "%s yields the base url %r" % (tag_, l)
+                    fails.append("%s yields the base url %r" % (tag_, l))
                 if l not in cands:
-                    return "%s yields %r which is not %s of an href of the document resolved against the base" % (tag_, l, "canonicalize_url" if c else "the value")
+                    fails.append("%s yields %r which is not %s of an href of the document resolved against the base" % (tag_, l, "canonicalize_url" if c else "the value"))
                 try:
                     sp = _std_urlsplit(l)
                     absolute = sp.scheme in ("http", "https") and bool(sp.netloc)
                 except ValueError:
                     absolute = False
                 if not absolute:
-                    return "%s yields %r which is not an absolute http(s) url" % (tag_, l)
+                    fails.append("%s yields %r which is not an absolute http(s) url" % (tag_, l))
                 if not follow(l):
-                    return "%s yields %r which should_follow_href refuses" % (tag_, l)
+                    fails.append("%s yields %r which should_follow_href refuses" % (tag_, l))
                 if not is_url(l, **IS_URL_KW):
-                    return "not-is_url: %s yields %r which is_url(tld_aware) refuses" % (tag_, l)
+                    fails.append("not-is_url: %s yields %r which is_url(tld_aware) refuses" % (tag_, l))
             if u and len(set(links)) != len(links):
-                return "%s yields a link twice: %r" % (tag_, links)
-    return None
+                fails.append("%s yields a link twice: %r" % (tag_, links))
+    return fails
 
 
 # ----------------------------------------------------------------------------------------
